@@ -62,6 +62,11 @@ func checkC13(r *Run) {
 			b.Tags = append(b.Tags, "foreign-go-package")
 			label += "/foreign-go-package"
 		}
+		if len(pairs)%4 == 1 {
+			// a target package name with a capital letter is taken as it is
+			b.MixedCaseTarget = true
+			b.Tags = append(b.Tags, "mixed-case-target-package")
+		}
 		if len(pairs)%3 == 0 {
 			// overrides keyed by string prefixes of the struct import path that are no path prefixes match nothing
 			b.DecoyPrefixOverrides = true
